@@ -197,6 +197,24 @@ func (e *specEnv) callExpr(n *ECall, hint types.Type) sv {
 		argn(1)
 		return sv{Val: Val{t: e.heldTerm(n.Fun, n.Args[0]), typ: tBool}}
 	}
+	if n.Fun == "noneHeld" {
+		// noneHeld(Struct.field): this function holds no lock of that class
+		argn(1)
+		f, ok := n.Args[0].(*EField)
+		if !ok {
+			sfail("noneHeld(Struct.field)")
+		}
+		id, ok2 := f.X.(*EIdent)
+		if !ok2 {
+			sfail("noneHeld(Struct.field)")
+		}
+		pn := ""
+		if p, ok := u.eng.PkgByPath[e.pkgPath]; ok {
+			pn = p.Name + "."
+		}
+		hk := u.regKey("Held."+pn+id.Name+"."+f.Name, "(Array Int Int)")
+		return sv{Val: Val{t: fmt.Sprintf("(forall ((r!h Int)) (= (select %s r!h) 0))", e.st.get(u, hk)), typ: tBool}}
+	}
 	if n.Fun == "blockingAcquisitions" {
 		// blockingAcquisitions(Struct.field): number of potentially blocking acquisitions of locks of
 		// that class (objects not allocated by the function itself) since the function was entered
